@@ -431,7 +431,18 @@ def r6(run, ctx):
         val = val.func.value
     if isinstance(val, ast.Name) and val.id in f.module.assigns:
         val = f.module.assigns[val.id]
-    if not isinstance(val, (ast.List, ast.Tuple)):
+    if isinstance(val, ast.Name):
+        val = astq.resolve_local(f.node, val)
+    if isinstance(val, ast.Attribute) and dotted(val.value) == 'self':
+        # another attribute set in __init__ to the literal (kept as the fixed part)
+        from rules.common import attr_stores
+        st = attr_stores(f.node, val.attr)
+        if len(st) == 1:
+            val = st[0][1]
+    if isinstance(val, ast.Call) and dotted(val.func) in ('list', 'tuple', 'frozenset', 'set') \
+            and val.args:
+        val = val.args[0]
+    if not isinstance(val, (ast.List, ast.Tuple, ast.Set)):
         raise AnalysisError('C14 R6: default ignore_hook_failure list not found')
     defaults = [astq.const_value(e) for e in val.elts]
     tested = _tested_hooks(ctx)
